@@ -346,8 +346,19 @@ pub fn diff(exp: &Exp, obs: &Obs) -> Vec<&'static str> {
   if obs.block_end != exp.block_end {
     d.push("block-end");
   }
-  if obs.writes != exp.writes {
-    d.push("writes");
+  // bytes and addresses must match; the order of the byte writes of one instruction is not
+  // part of C05/C06's statements (C01 compares the order between the two engines, C07 states
+  // it for interrupt dispatch), so it is not judged here
+  {
+    let mut a = obs.writes.clone();
+    let mut b = exp.writes.clone();
+    if a.len() > 1 {
+      a.sort();
+      b.sort();
+    }
+    if a != b {
+      d.push("writes");
+    }
   }
   d
 }
